@@ -25,7 +25,9 @@ ASSUMPTIONS = [
 ]
 
 HOSTS = ["example.com", "sub.example.com", "a.sub.example.com", "badexample.com", "xexample.com", "example.com.evil.test",
-         "other.test", "www.other.test", "Example.COM", "SUB.example.com", "com", "example.co", "corp", "api.corp", "A.B.Corp", "xcorp"]
+         "other.test", "www.other.test", "Example.COM", "SUB.example.com", "com", "example.co", "corp", "api.corp", "A.B.Corp", "xcorp",
+         # look-alikes in which a dot of a stored domain is replaced by another character
+         "sub-example.com", "subxexample.com", "example-com", "other-test", "a.sub.example-com"]
 DOMAINS = ["example.com", ".example.com", "EXAMPLE.com", ".Example.Com", "sub.example.com", ".SUB.example.com", "other.test", ".other.test", "evil.test",
            "corp", ".corp", "Corp", "test"]  # (single-label domains, too: an intranet name; the statement knows no public-suffix rule)
 NAMES = ["sid", "a", "ab", "b", "tok", "z"]
